@@ -1,6 +1,7 @@
 import LentilVerif.Model.Stochastic
 import LentilVerif.Lemmas.Detector
 import LentilVerif.Gen.Effects
+import LentilVerif.Gen.PowerSpectrum
 import Mathlib.Tactic.FieldSimp
 /-! # C18 — stochastic models are reproducible from their seed and physically bounded
 
@@ -121,9 +122,26 @@ theorem power_spectrum_rms_exact [LinearOrder K] [IsStrictOrderedRing K] (sqrt :
   rw [← hSdef]
   field_simp
 
-/-- the frequency filter and the noise array have the same (rows, cols) shape as the mask, square or not -/
-theorem filter_shape_eq_mask_shape (n m : Int) : psFilterShape n m = (n, m) ∧ psNoiseShape n m = psFilterShape n m := ⟨rfl, rfl⟩
+/-- once a map has mean square `rms²` over its `c` non-zero pixels, normalising it again multiplies it by exactly 1 — the
+normalisation the code applies is a projection (this is what the correspondence op `st.power` checks on the returned map) -/
+theorem power_spectrum_fixed_point [LinearOrder K] [IsStrictOrderedRing K] (sqrt : K → K) (hsqr : ∀ y, 0 ≤ y → sqrt (y * y) = y)
+    (c rms : K) (hc : 0 < c) (hr : 0 < rms) : sqrt (c / (c * rms ^ 2)) * rms = 1 := by
+  have e : c / (c * rms ^ 2) = (1 / rms) * (1 / rms) := by field_simp
+  rw [e, hsqr _ (by positivity)]; field_simp
 end
+
+/-! ## power_spectrum: index bookkeeping regenerated from wfe.py (Gen/PowerSpectrum.lean) -/
+
+/-- the frequency grid / filter and the noise array both have the mask's (rows, cols) shape, square or not — stated about
+the shapes **as the source builds them** (`n, m = mask.shape; mgrid[0:n, 0:m]; normal(size=[n, m])`, re-read on every run):
+swapping rows and columns anywhere changes a generated definition and this stops checking -/
+theorem filter_shape_eq_mask_shape (rows cols : Int) :
+    Gen.psGridShape rows cols = (rows, cols) ∧ Gen.psNoiseShape rows cols = Gen.psGridShape rows cols := ⟨rfl, rfl⟩
+
+/-- each axis of the frequency grid is centred on index `⌊len/2⌋ + 1` of **its own** length and normalised by it
+(cycles per pixel along rows use the row count, along columns the column count) -/
+theorem frequency_grid_per_axis (rows cols i j : Int) :
+    Gen.psFreqRow rows cols i j = (i - (rows / 2 + 1), rows) ∧ Gen.psFreqCol rows cols i j = (j - (cols / 2 + 1), cols) := ⟨rfl, rfl⟩
 
 /-! ## reproducibility -/
 
@@ -137,8 +155,10 @@ theorem seeded_is_function_of_args :
 
 /-! ## cosmic rays -/
 
-/-- a cosmic-ray frame is non-negative at every pixel for every random state: each ray segment deposits `flux · distance ≥ 0` -/
-theorem cosmic_rays_shape_nonneg_finite {K : Type} [Field K] [LinearOrder K] [IsStrictOrderedRing K]
+/-- the accumulation of ray deposits is non-negative at every pixel when every deposit is `flux · distance` with both
+non-negative. (That `cosmic_rays` IS this accumulation — zeros frame of the requested shape, `+=` of per-ray frames, every
+deposit non-negative — is sampled by the correspondence op `st.cosmic` on recorded per-ray frames, not proved: see UNPROVEN.) -/
+theorem cosmic_accumulation_nonneg {K : Type} [Field K] [LinearOrder K] [IsStrictOrderedRing K]
     (deps : List (Nat × K × K)) (h : ∀ d ∈ deps, 0 ≤ d.2.1 ∧ 0 ≤ d.2.2) (i : Nat) : 0 ≤ cosmicFrame deps i := by
   unfold cosmicFrame sumList
   have key : ∀ (l : List (Nat × K × K)) (acc : K), 0 ≤ acc → (∀ d ∈ l, 0 ≤ d.2.1 ∧ 0 ≤ d.2.2) →
